@@ -485,6 +485,16 @@ func isFalse(in ast.IsNode) bool {
 	return v == types.Boolean(false)
 }
 
+// unfrozen returns n, unless n is a record or set value that still contains a placeholder (the
+// projection of a partly unknown context): such a value must not be written into a residual,
+// where the placeholder would be read as a concrete entity, so the original operand is kept.
+func unfrozen(n, original ast.IsNode) ast.IsNode {
+	if v, ok := n.(ast.NodeValue); ok && containsMarker(v.Value) {
+		return original
+	}
+	return n
+}
+
 func partialIfThenElse(env Env, v ast.NodeTypeIfThenElse) (ast.IsNode, error) {
 	ifNode, ifErr := partial(env, v.If)
 	switch {
@@ -510,7 +520,7 @@ func partialIfThenElse(env Env, v ast.NodeTypeIfThenElse) (ast.IsNode, error) {
 	} else if elseErr != nil && !errors.Is(elseErr, errVariable) {
 		elseNode = extError(elseErr)
 	}
-	return ast.NodeTypeIfThenElse{If: ifNode, Then: thenNode, Else: elseNode}, nil
+	return ast.NodeTypeIfThenElse{If: ifNode, Then: unfrozen(thenNode, v.Then), Else: unfrozen(elseNode, v.Else)}, nil
 }
 
 func partialAnd(env Env, v ast.NodeTypeAnd) (ast.IsNode, error) {
@@ -536,7 +546,7 @@ func partialAnd(env Env, v ast.NodeTypeAnd) (ast.IsNode, error) {
 	} else if rightErr != nil && !errors.Is(rightErr, errVariable) {
 		right = extError(rightErr)
 	}
-	return ast.NodeTypeAnd{BinaryNode: ast.BinaryNode{Left: left, Right: right}}, nil
+	return ast.NodeTypeAnd{BinaryNode: ast.BinaryNode{Left: left, Right: unfrozen(right, v.Right)}}, nil
 }
 
 func partialOr(env Env, v ast.NodeTypeOr) (ast.IsNode, error) {
@@ -562,7 +572,7 @@ func partialOr(env Env, v ast.NodeTypeOr) (ast.IsNode, error) {
 	} else if rightErr != nil && !errors.Is(rightErr, errVariable) {
 		right = extError(rightErr)
 	}
-	return ast.NodeTypeOr{BinaryNode: ast.BinaryNode{Left: left, Right: right}}, nil
+	return ast.NodeTypeOr{BinaryNode: ast.BinaryNode{Left: left, Right: unfrozen(right, v.Right)}}, nil
 }
 
 const partialErrorName = "__cedar::partialError"
